@@ -20,6 +20,9 @@ import json
 from harness import kit, ser
 
 _ENVS = None
+# TLC evaluates the recursive operators on the Java stack; the default 1 MB thread stack was
+# seen to overflow sporadically (JIT dependent) on deep random lists
+JENV = {"JAVA_TOOL_OPTIONS": "-Xss16m"}
 
 NEG_CONTROLS = [
     # (module, cfg, invariant TLC must report as violated, run in the quick tier?)
@@ -42,6 +45,27 @@ def _envs(extra):
 
 
 # ------------------------------------------------------------------ driver side
+class _Hang(Exception):
+    """A single case ran for minutes: machinery failure, never a silent hang."""
+
+
+def _on_alarm(signum, frame):
+    raise _Hang("C12 driver: one case exceeded 120 s")
+
+
+def _call_to_json(thunk):
+    """ser.call_to_json, but the watchdog's exception is never taken for an observation."""
+    import warnings
+    try:
+        with warnings.catch_warnings():
+            warnings.simplefilter("ignore")
+            return ser.val_to_json(thunk())
+    except (_Hang, RecursionError):
+        raise
+    except Exception as exc:  # noqa: BLE001 - the exception class is the observation
+        return ser.exc_to_json(exc)
+
+
 class _NodeTable:
     """Distinct trees seen in events, referred to by index (keeps traces small)."""
 
@@ -57,12 +81,13 @@ class _NodeTable:
         return self.index[k]
 
 
-def _instrumented():
-    from pymbolic.mapper.evaluator import EvaluationMapper
+def _instrumented(cls="plain"):
+    from pymbolic.mapper.evaluator import CachedEvaluationMapper, EvaluationMapper
+    base = CachedEvaluationMapper if cls == "cached" else EvaluationMapper
 
-    class Instr(EvaluationMapper):
-        """EvaluationMapper whose operation handlers and wrapper-child handler log their
-        invocation before / around delegating to super()."""
+    class Instr(base):
+        """(Cached)EvaluationMapper whose operation handlers and wrapper-child handler log
+        their invocation before / around delegating to super()."""
 
         def __init__(self, context, log):
             super().__init__(context)
@@ -113,7 +138,7 @@ def _evaluate_logged(inst, expr, emit, table):
         with warnings.catch_warnings():
             warnings.simplefilter("ignore")
             val = inst(expr)
-    except RecursionError:
+    except (_Hang, RecursionError):
         raise
     except Exception as exc:  # noqa: BLE001 - the exception class is the observation
         emit({"ev": "raise", "val": ser.exc_to_json(exc)})
@@ -142,7 +167,7 @@ def drive_tag(case, extra):
             warnings.simplefilter("ignore")
             outs = tag_common_subexpressions(ins)
         rec["outs"] = [ser.to_json(o) for o in outs]
-    except RecursionError:
+    except (_Hang, RecursionError):
         raise
     except Exception as exc:  # noqa: BLE001
         rec["r"] = "err"
@@ -176,8 +201,8 @@ def drive_tag(case, extra):
         rec["houts"] = [ser.to_json(o) for o in houts]
         for env in envs:
             inst = Instr(env, lambda kind, expr: None)
-            rec["hvals"].append([ser.call_to_json(lambda o=o: inst(o)) for o in houts])
-    except RecursionError:
+            rec["hvals"].append([_call_to_json(lambda o=o: inst(o)) for o in houts])
+    except (_Hang, RecursionError):
         raise
     except Exception as exc:  # noqa: BLE001
         rec["houts"] = []
@@ -187,7 +212,7 @@ def drive_tag(case, extra):
 
 
 def drive_hist(case, extra):
-    Instr = _instrumented()
+    Instr = _instrumented(case.get("cls", "plain"))
     envs = _envs(extra)
     exprs = [ser.from_json(e) for e in case["exprs"]]
     table = _NodeTable()
@@ -204,8 +229,8 @@ def drive_hist(case, extra):
             ev["i"] = i
             evs.append(ev)
         _evaluate_logged(insts[i], exprs[x - 1], emit, table)
-    return {"id": case["id"], "kind": "hist", "exprs": case["exprs"], "h": case["h"],
-            "nodes": table.nodes, "evs": evs}
+    return {"id": case["id"], "kind": "hist", "cls": case.get("cls", "plain"),
+            "exprs": case["exprs"], "h": case["h"], "nodes": table.nodes, "evs": evs}
 
 
 def _arg_from_json(j):
@@ -224,7 +249,12 @@ def _arg_from_json(j):
 
 def _res_to_json(res):
     import numpy as np
+    import pymbolic.primitives as p
     from pymbolic.geometric_algebra import MultiVector
+    if isinstance(res, p.CommonSubexpression) and isinstance(res.child, (np.ndarray, MultiVector)):
+        # a wrapper around a whole aggregate: recorded as such, the spec judges it
+        return {"t": "CSE", "a": _res_to_json(res.child), "prefix": res.prefix or "",
+                "scope": res.scope}
     if isinstance(res, np.ndarray):
         if res.dtype.char != "O":
             raise ser.Unserialisable("non-object array")
@@ -251,7 +281,7 @@ def drive_wrap(case, extra):
                 res = p.wrap_in_cse(arg, prefix)
             else:
                 res = p.make_common_subexpression(arg, prefix, scope)
-    except RecursionError:
+    except (_Hang, RecursionError):
         raise
     except Exception as exc:  # noqa: BLE001
         rec["res"] = {"r": "err", "v": ser.exc_to_json(exc)}
@@ -264,7 +294,13 @@ def drive_wrap(case, extra):
 
 
 def drive_case(case, extra):
-    return {"tag": drive_tag, "hist": drive_hist, "wrap": drive_wrap}[case["kind"]](case, extra)
+    import signal
+    signal.signal(signal.SIGALRM, _on_alarm)
+    signal.alarm(120)
+    try:
+        return {"tag": drive_tag, "hist": drive_hist, "wrap": drive_wrap}[case["kind"]](case, extra)
+    finally:
+        signal.alarm(0)
 
 
 # ------------------------------------------------------------------ check side
@@ -284,8 +320,10 @@ def classify(out, reports, byid, counters):
             counters["drift"] += r.get("drift", 0)
             if r["v"] != "OK":
                 sig = {"family": "history", "clause": r["v"], "event": r.get("ev", "")}
-                out.fail(sig, {"case": {"id": rec["id"], "kind": "hist", "exprs": rec["exprs"],
-                                        "h": rec["h"]},
+                if rec.get("cls", "plain") != "plain":
+                    sig["evaluator"] = rec["cls"]
+                out.fail(sig, {"case": {"id": rec["id"], "kind": "hist", "cls": rec.get("cls", "plain"),
+                                        "exprs": rec["exprs"], "h": rec["h"]},
                                "recorded_events": rec["evs"], "nodes": rec["nodes"],
                                "verdict": r})
             continue
@@ -316,17 +354,51 @@ def classify(out, reports, byid, counters):
     out.drift += counters["drift"]
 
 
+def _judge_shards(module, shard_paths, jvms=2, workers=8):
+    """kit.judge_shards with the larger thread stack; a shard whose TLC run dies of an
+    infrastructure error (seen sporadically on the heavily shared machine: stack overflow in
+    a worker thread, JVM start-up failures) is judged once more - verdict lines are never
+    retried or dropped, a second failure is a machinery failure with TLC's own message."""
+    from pathlib import Path
+    verdicts, states, trans = [], 0, 0
+
+    def one(pth):
+        last = None
+        for attempt in (1, 2):
+            e = dict(JENV)
+            e["TRACE_FILE"] = str(pth)
+            r = kit.run_tlc(module, module, workers=workers, env=e, heap="6g",
+                            tag=f"{module}.{Path(pth).stem}.{attempt}")
+            if r.rc == 0 and "Error:" not in r.out:
+                return r
+            lines = r.out.splitlines()
+            msg = [ln for i, ln in enumerate(lines)
+                   if any("Error" in x or "Exception" in x for x in lines[max(0, i - 2):i + 1])
+                   and not ln.startswith('"')][:12]
+            kit.log(f"C12: TLC run on {Path(pth).name} failed (attempt {attempt}, rc={r.rc}): "
+                    + " | ".join(msg))
+            last = msg
+        raise kit.MachineryError(f"TLC failed twice in judging {pth}: " + " | ".join(last or []))
+
+    with cf.ThreadPoolExecutor(max_workers=jvms) as ex:
+        for r in ex.map(one, shard_paths):
+            verdicts.extend(r.printed())
+            states += r.distinct
+            trans += r.generated
+    return verdicts, states, trans
+
+
 def judge(out, recs, wd, counters):
     tagw = [r for r in recs if r["kind"] in ("tag", "wrap")]
     hist = [r for r in recs if r["kind"] == "hist"]
     jobs = []
     if tagw:
-        jobs.append(("C12_Judge", kit.write_shards(tagw, wd / "trace", "c12", 1300)))
+        jobs.append(("C12_Judge", kit.write_shards(tagw, wd / "trace", "c12", 2500)))
     if hist:
-        jobs.append(("C12_HJudge", kit.write_shards(hist, wd / "trace", "c12h", 1300)))
+        jobs.append(("C12_HJudge", kit.write_shards(hist, wd / "trace", "c12h", 2500)))
     reports = []
     with cf.ThreadPoolExecutor(max_workers=2) as ex:
-        for reps, st, tr in ex.map(lambda j: kit.judge_shards(j[0], j[0], j[1]), jobs):
+        for reps, st, tr in ex.map(lambda j: _judge_shards(j[0], j[1]), jobs):
             reports += reps
             out.states += st
             out.transitions += tr
@@ -338,7 +410,7 @@ def negative_controls(everything=True):
     """Every Buggy_* configuration must make TLC report the named invariant violated
     (quick tier: the four cheapest / most important ones, thorough and selftest: all)."""
     def one(nc):
-        res = kit.run_tlc(nc[0], nc[1], workers=2, heap="2g")
+        res = kit.run_tlc(nc[0], nc[1], workers=2, heap="2g", env=JENV)
         return nc, res
     todo = [nc for nc in NEG_CONTROLS if everything or nc[3]]
     refuted = []
@@ -369,9 +441,9 @@ def run(tier, seed, out):
     wd = kit.fresh_workdir("C12")
     counters = {"drift": 0}
     with cf.ThreadPoolExecutor(max_workers=3) as ex:
-        fgen = ex.submit(kit.run_tlc, "C12_Gen", f"C12_Gen_{tier}", workers=10)
+        fgen = ex.submit(kit.run_tlc, "C12_Gen", f"C12_Gen_{tier}", workers=10, env=JENV)
         fhis = ex.submit(kit.run_tlc, "C12_CSEEvalCache", f"C12_CSEEvalCache_{tier}", workers=4,
-                         heap="4g")
+                         heap="4g", env=JENV)
         fneg = ex.submit(negative_controls, tier == "thorough")
         gen, his, refuted = fgen.result(), fhis.result(), fneg.result()
     kit.require_clean(gen, "C12_Gen (cache invariants on the model, helper tables, generation)")
@@ -387,7 +459,8 @@ def run(tier, seed, out):
         raise kit.MachineryError("C12 generators printed no environments / cases")
     nexh = len(cases)
     if tier == "thorough":
-        rnd = kit.run_tlc("C12_Gen", "C12_Gen_rand", simulate="num=4000", depth=12, seed=seed)
+        rnd = kit.run_tlc("C12_Gen", "C12_Gen_rand", simulate="num=80", depth=12, seed=seed,
+                          env=JENV)
         kit.require_clean(rnd, "C12 random lists (-simulate)")
         out.add_tlc(rnd)
         more = [p for p in rnd.printed() if p.get("kind") == "tag"]
@@ -400,6 +473,9 @@ def run(tier, seed, out):
                 cases.append(c)
         kit.log(f"C12: -simulate seed={seed} added {len(cases) - nexh} distinct random lists "
                 f"({rnd.wall:.1f}s)")
+    if tier == "thorough":
+        # the same histories on instances of the memoising evaluator as well
+        hcases = hcases + [dict(h, cls="cached") for h in hcases]
     cases += hcases
     for i, c in enumerate(cases):
         c["id"] = i
@@ -468,7 +544,7 @@ def replay(path, out):
     wd = kit.fresh_workdir("C12")
     d = json.loads(open(path).read())
     case = d["detail"]["case"]
-    gen = kit.run_tlc("C12_Gen", "C12_Gen_envs", workers=1, heap="1g")  # prints the box
+    gen = kit.run_tlc("C12_Gen", "C12_Gen_envs", workers=1, heap="1g", env=JENV)  # prints the box
     envs = [p["envs"] for p in gen.printed() if "envs" in p]
     if len(envs) != 1:
         raise kit.MachineryError("C12 replay: could not obtain the environments from the spec")
